@@ -304,7 +304,52 @@ def merges(f, h):
     return len(t) > 0 and (len(set(t)) < len(t) or len(set(s)) < len(s) or len(t) >= 1)
 
 
+def all_small_ohgs():
+    """every open hypergraph with <= 2 nodes (labels 0/1), <= 1 hyperedge of arity/coarity <= 2, interfaces <= 2"""
+    out = []
+    for n in range(3):
+        lists = [list(t) for k in range(3) for t in itertools.product(range(n), repeat=k)]
+        for w in itertools.product(range(2), repeat=n):
+            edges = [None] + [(s, t) for s in lists for t in lists]
+            for e in edges:
+                if e is None:
+                    hs = [[[], 1], [[], n]]
+                    ht = [[[], 1], [[], n]]
+                    x = []
+                else:
+                    hs = [[[len(e[0])], len(e[0]) + 1], [e[0], n]]
+                    ht = [[[len(e[1])], len(e[1]) + 1], [e[1], n]]
+                    x = [0]
+                for si in lists:
+                    for ti in lists:
+                        out.append([[si, n], [ti, n], [hs, ht, list(w), x]])
+    return out
+
+
+_SMALL = None
+
+
+def small_pairs(g, k):
+    """k random composable pairs from the exhaustive small universe (grouped by boundary type)"""
+    global _SMALL
+    if _SMALL is None:
+        univ = all_small_ohgs()
+        by_src = {}
+        for f in univ:
+            by_src.setdefault(tuple(ohg_types(f)[0]), []).append(f)
+        _SMALL = (univ, by_src)
+    univ, by_src = _SMALL
+    for _ in range(k):
+        f = g.r.choice(univ)
+        c = by_src.get(tuple(ohg_types(f)[1]))
+        if c:
+            yield f, g.r.choice(c)
+
+
 def C01(g, tier):
+    for f, h in small_pairs(g, N(tier, 1500, 60000)):
+        for bk in BACKENDS:
+            yield sx(["ohg_compose", bk, f, h]), len(f[1][0]) > 0
     for _ in range(N(tier, 600, 6000)):
         f, h = composable(g)
         if g.r.random() < 0.15:
@@ -369,6 +414,16 @@ def C02(g, tier):
 
 def C03(g, tier):
     S = lambda f: ["s", f]
+    for f, h in small_pairs(g, N(tier, 600, 20000)):
+        bk = g.r.choice(BACKENDS)
+        _, tt = ohg_types(h)
+        k = g.r.choice(_SMALL[1].get(tuple(tt), [None]))
+        if k is not None:
+            yield sx(["law", bk, ["scomp", ["scomp", S(f), S(h)], S(k)], ["scomp", S(f), ["scomp", S(h), S(k)]]]), True
+        a, b = ohg_types(f)
+        yield sx(["law", bk, ["scomp", ["sid", a], S(f)], S(f)]), True
+        yield sx(["law", bk, ["scomp", S(f), ["sid", b]], S(f)]), True
+        yield sx(["law", bk, ["sdag", ["scomp", S(f), S(h)]], ["scomp", ["sdag", S(h)], ["sdag", S(f)]]]), True
     for _ in range(N(tier, 250, 2500)):
         bk = g.r.choice(BACKENDS)
         f, h = composable(g)
